@@ -543,6 +543,11 @@ func stateAgreement(pj *simdjson.ParsedJson, docs []*ref.Node, mode simdjson.Com
 
 // lookupAgreement: FindKey on every object for every present key (first member) and an
 // absent key; FindPath for every key path to depth 3.
+var (
+	editElements *simdjson.Elements  // long-lived Object.Parse destination
+	editKeysSeen = map[string]bool{} // every member name any checked object ever had
+)
+
 func lookupAgreement(pj *simdjson.ParsedJson, docs []*ref.Node) (what string) {
 	defer func() {
 		if r := recover(); r != nil {
@@ -565,6 +570,40 @@ func lookupAgreement(pj *simdjson.ParsedJson, docs []*ref.Node) (what string) {
 		keys := map[string]bool{"\x00absent": true}
 		for _, k := range n.Keys {
 			keys[string(k)] = true
+			editKeysSeen[string(k)] = true
+		}
+		// Object.Parse into one long-lived Elements (last filled from another object or an
+		// earlier state of this one) + Lookup of every key ever seen, present or deleted
+		if obj2, oerr := it.Object(nil); oerr == nil {
+			els, perr := obj2.Parse(editElements)
+			if perr != nil {
+				return fmt.Sprintf("Object.Parse at %s: %v", cp, perr)
+			}
+			editElements = els
+			if len(els.Elements) != len(n.Elems) {
+				return fmt.Sprintf("Object.Parse(reused Elements) at %s lists %d members, object has %d", cp, len(els.Elements), len(n.Elems))
+			}
+			for k := range editKeysSeen {
+				var want *ref.Node
+				for i, mk := range n.Keys {
+					if string(mk) == k {
+						want = n.Elems[i] // the last member with that name is the one indexed
+					}
+				}
+				el := els.Lookup(k)
+				switch {
+				case want == nil && el != nil:
+					return fmt.Sprintf("Elements.Lookup(%q) after Object.Parse(reused Elements) at %s finds a member that does not exist (any more)", k, cp)
+				case want != nil && el == nil:
+					return fmt.Sprintf("Elements.Lookup(%q) after Object.Parse(reused Elements) at %s returned nil, member exists", k, cp)
+				case want != nil:
+					wk := &walker{budget: 1 << 16}
+					got, verr := wk.value(&el.Iter)
+					if verr != nil || got.Render() != want.Render() {
+						return fmt.Sprintf("Elements.Lookup(%q) at %s returned %v (%v), member is %s", k, cp, got, verr, clip(want.Render()))
+					}
+				}
+			}
 		}
 		for k := range keys {
 			var want *ref.Node
